@@ -7,7 +7,8 @@ OWNERS = {
     'C02': ['c02'],
     'C03': ['c03'],
     'C04': ['c04'],
-    'C05': ['coherence', 'accessor', 'reader', 'summary.sum', 'summary.nnz',
+    'C05': ['coherence', '*.incoherent', 'accessor', 'reader', 'summary.sum',
+            'summary.nnz',
             'summary.density', 'read.data', 'read.value', 'read.getslice',
             'read.iter', 'read.iter_data', 'read.pairwise', 'read.nonzero',
             'read.sum', 'read.nnz', 'read.density', 'step', 'spawn'],
@@ -49,10 +50,12 @@ H5_CATS = [0, 1, 2, 3, 4, 5, 6, 8]
 PROFILES = {
     'C05': {
         'name': 'C05', 'ops': {o: 1.0 for o in ALL_OPS},
-        'kinds': {'op': 10, 'read': 6, 'perturb': 3, 'spawn': 1.5, 'step': 3},
+        'kinds': {'op': 10, 'read': 6, 'perturb': 3, 'spawn': 1.5, 'step': 3,
+                  'probe': 1.5},
         'reads': _w(['data', 'value', 'iter', 'pairwise', 'nonzero', 'sum',
                      'nnz', 'density', 'getslice', 'iter_data'], 1.0,
                     ALL_READS, 0.15),
+        'probes': {'c05_interleave': 1.0},
     },
     'C06': {
         'name': 'C06',
@@ -120,7 +123,7 @@ PROFILES = {
                   'probe': 1.0},
         'reads': _w(['eq'], 6.0, ALL_READS, 0.6),
         'p_dup': 0.7, 'pools': [4, 6, 6],
-        'probes': {'c16_export': 1.0, 'c16_near': 1.0},
+        'probes': {'c16_export': 1.0, 'c16_near': 1.0, 'c05_interleave': 1.0},
     },
     'C18': {
         'name': 'C18', 'ops': _w(['add_metadata', 'del_metadata'], 5.0),
